@@ -127,9 +127,36 @@ def capHandle (a : Args) : Option String := do
       pure (capAns (Cap.capSame bs) (NN.shapePool2d shape k st (c != 0)))
   | _ => none
 
+def viewAns (v : Option IxView) : String :=
+  match v with
+  | none => "nothing"
+  | some v => s!"ok shape={fmtNats v.dst} data={fmtInts v.provenance}"
+
+/-- `capv kind=… shape=…`: the indexing view kinds of harness/h_c02capv.cpp (matmul / pooling compute values: no model here) -/
+def capvHandle (a : Args) : Option String := do
+  let kd ← a.get? "kind"
+  let shape ← a.nats "shape"
+  match kd with
+  | "expand_dims" => let axes ← a.ints "axes"; pure (viewAns (expandDimsView shape axes))
+  | "squeeze" => pure (viewAns (squeezeView shape))
+  | "sliding_window" =>
+      let axes ← a.optInts "axes"; let ws ← a.nats "window"
+      pure (viewAns (slidingWindowView shape ws axes (a.get? "scalar").isSome))
+  | "moveaxis" =>
+      let src ← a.ints "source"; let dst ← a.ints "destination"
+      pure (viewAns (moveaxisView shape src dst))
+  | "roll" => let sh ← a.ints "shift"; let axes ← a.ints "axes"; pure (viewAns (rollAxesView shape sh axes))
+  | "resize" => let dst ← a.nats "dst"; pure (viewAns (resizeView shape dst))
+  | "expand" => let axes ← a.ints "axes"; let sp ← a.nats "spacing"; pure (viewAns (expandView shape axes sp))
+  | "diagonal" =>
+      let off ← a.int "offset"; let a1 ← a.int "axis1"; let a2 ← a.int "axis2"
+      pure (viewAns (diagonalView shape off a1 a2))
+  | _ => pure "unmodelled"
+
 def handle : Handler := fun op a =>
   match op with
   | "cap" => orBad (capHandle a)
+  | "capv" => orBad (capvHandle a)
   | "chain" => orBad do
       let s ← a.nats "shape"; let ops ← a.get? "ops"
       match chainView s (ops.splitOn "/") with
